@@ -660,6 +660,25 @@ def check_property(pid, tier, seed):
             broken.append(("axiom audit", alog[-3000:]))
     else:
         obligations, discharged = 1, 0
+    # tie of the kernel theorems to the code: closed-world audit + primitive (op-script) correspondence
+    obligations += 2
+    rc, out, err = run(["python3", os.path.join(ROOT, "translator/audit.py")])
+    if rc == 0:
+        discharged += 1
+    else:
+        broken.append(("closed-world audit of mod.rs/macro.rs (direct state access outside the modelled primitives)", out.decode(errors="replace")[-2000:]))
+    if os.path.exists(SASMODEL):
+        rc, out, err = run(["python3", os.path.join(ROOT, "tools/script_corr.py"), "--seed", str(seed), "--n", "3000" if tier == "quick" else "40000",
+                            "--variants", "dev,rel,dev-sep"])
+        try:
+            sc = json.loads(out.decode())
+            R.cov["primitive_correspondence"] = {k2: v2 for k2, v2 in sc.items() if k2 != "disagreements"}
+        except ValueError:
+            sc = {"n_disagreements": -1, "disagreements": [err.decode(errors="replace")[-800:]]}
+        if rc == 0:
+            discharged += 1
+        else:
+            broken.append(("primitive (operation-script) correspondence", json.dumps(sc.get("disagreements", [])[:2], ensure_ascii=False)[:3000]))
     for name, fn in cfg.get("extra_obligations", []):
         obligations += 1
         okx, msgx = fn()
